@@ -9,6 +9,8 @@ Inductive sop :=
 | SSnap                        (* the harness reads the file's bytes *)
 | SCloseAll                    (* LState.Close: every handle still open is flushed and closed *)
 | SStdClose                    (* io.stdout:close() / io.stderr:close(): refused, nothing happens *)
+| SDevFull                     (* a buffered handle on /dev/full is closed: the flush fails, close returns nil, message
+                                  (and gives the descriptor back: checked by the harness) *)
 | SStdWrite                    (* io.stderr:setvbuf("full"); io.stderr:write(s): no effect on the file
                                   (that the bytes arrive by the end of the state is checked by the harness) *)
 | SIoLines.                    (* for l in io.lines(path): all lines through a fresh handle *)
@@ -36,6 +38,7 @@ Definition isys_step (st : bytes * list ihandle) (o : sop) : bytes * list ihandl
   | SSnap => (disk, hs, RBytes disk)
   | SStdClose => (disk, hs, RFail)
   | SStdWrite => (disk, hs, RTrue)
+  | SDevFull => (disk, hs, RFail)
   | SCloseAll =>
     let (d', hs') := fold_left (fun (st : bytes * list ihandle) h =>
                                   let (d, acc) := st in
@@ -68,6 +71,7 @@ Definition ssys_step (crlf : bool) (st : bytes * list shandle) (o : sop) : bytes
   | SSnap => (c, hs, RBytes c)
   | SStdClose => (c, hs, RFail)
   | SStdWrite => (c, hs, RTrue)
+  | SDevFull => (c, hs, RFail)
   | SCloseAll =>
     let (c', hs') := fold_left (fun (st : bytes * list shandle) h =>
                                   let (d, acc) := st in
@@ -138,9 +142,11 @@ Fixpoint disc1 (l : lastop) (ops : list op) : bool :=
 (* several handles: a handle is used only while the others hold no unflushed write, and a handle
    does not read through a read-ahead taken before another handle changed the file
    ([t_stale]; a seek or a write of its own gives the read-ahead up). *)
-Record trk := mkT { t_open : bool; t_last : lastop; t_stale : bool }.
+(* [t_dirty]: a write not yet followed by flush, seek or close (the property promises visibility
+   to other readers only after flush/close; seek flushes too in any stdio) *)
+Record trk := mkT { t_open : bool; t_last : lastop; t_stale : bool; t_dirty : bool }.
 
-Definition synced (t : trk) : bool := negb (t_open t) || negb (is_LWrite (t_last t)).
+Definition synced (t : trk) : bool := negb (t_open t) || negb (t_dirty t).
 
 Fixpoint others_synced (ts : list trk) (i : nat) : bool :=
   match ts with
@@ -152,7 +158,7 @@ Fixpoint others_synced (ts : list trk) (i : nat) : bool :=
     end
   end.
 
-Definition mark_stale (t : trk) : trk := mkT (t_open t) (t_last t) true.
+Definition mark_stale (t : trk) : trk := mkT (t_open t) (t_last t) true (t_dirty t).
 
 Fixpoint stale_others (ts : list trk) (i : nat) (x : trk) : list trk :=
   match ts with
@@ -168,13 +174,14 @@ Definition disc_sys_step (ts : list trk) (o : sop) : option (list trk) :=
   match o with
   | SOpen m =>
     if forallb synced ts
-    then Some ((if mode_trunc m then map mark_stale ts else ts) ++ [mkT true LNone false])
+    then Some ((if mode_trunc m then map mark_stale ts else ts) ++ [mkT true LNone false false])
     else None
   | SIoLines => if forallb synced ts then Some ts else None
   | SSnap => Some ts
   | SStdClose => Some ts
   | SStdWrite => Some ts
-  | SCloseAll => Some (map (fun _ => mkT false LNone false) ts)
+  | SDevFull => Some ts
+  | SCloseAll => Some (map (fun _ => mkT false LNone false false) ts)
   | SOp i o' =>
     match nth_error ts i with
     | None => None
@@ -184,14 +191,14 @@ Definition disc_sys_step (ts : list trk) (o : sop) : option (list trk) :=
       match o' with
       | ORead _ | OLines _ | ONext _ =>
         if t_stale t then None
-        else Some (upd_nth ts i (mkT true LRead false))
+        else Some (upd_nth ts i (mkT true LRead false (t_dirty t)))
       | OWrite _ =>
         if is_LRead (t_last t) then None
-        else Some (stale_others ts i (mkT true LWrite false))
-      | OSeek _ _ => Some (upd_nth ts i (mkT true LNone false))
-      | OFlush => Some (upd_nth ts i (mkT true LNone (t_stale t)))
+        else Some (stale_others ts i (mkT true LWrite false true))
+      | OSeek _ _ => Some (upd_nth ts i (mkT true LNone false false))
+      | OFlush => Some (upd_nth ts i (mkT true LNone (t_stale t) false))
       | OSetvbuf _ _ => Some ts
-      | OClose => Some (upd_nth ts i (mkT false LNone false))
+      | OClose => Some (upd_nth ts i (mkT false LNone false false))
       end
     end
   end.
